@@ -19,7 +19,7 @@ RULE = ('random histories over {call traced fn (returns/raises, nested, shared n
 ASSUMPTIONS = ['kfac.tracing reads the clock only through its module attribute `time`',
                'max_history <= 0 is outside the documented domain and is not generated',
                'sync=True is exercised with torch.distributed.barrier replaced by a counting stub (single process) and, on every 10th case, on 2-3 simulated ranks (simdist) where the barriers are real collectives']
-REQUIRED = ['query_checks', 'call_checks', 'sync_worlds']
+REQUIRED = ['query_checks', 'call_checks', 'clears_inside_a_traced_call', 'sync_worlds']
 
 
 class Clock:
@@ -71,12 +71,20 @@ def run_case(rng, res, case_id):
                 log.append(('enter', name, my))
                 mode = kwargs.pop('_mode', 'ret')
                 depth = kwargs.pop('_depth', 0)
+                clear_at = kwargs.pop('_clear', None)
+                if clear_at == 'before':
+                    # a log-and-reset callback inside a traced function: this call is still in flight and completes afterwards
+                    log.append(('clear',))
+                    tracing.clear_trace()
                 if depth > 0 and funcs:
                     j = kwargs.pop('_callee', 0) % len(funcs)
                     try:
                         funcs[j](_depth=depth - 1, _mode=kwargs.pop('_inner_mode', 'ret'))
                     except Boom:
                         pass
+                if clear_at == 'after':
+                    log.append(('clear',))
+                    tracing.clear_trace()
                 if mode == 'raise':
                     log.append(('exit_raise', name, my))
                     raise Boom(my)
@@ -110,6 +118,9 @@ def run_case(rng, res, case_id):
                 got = exc = None
                 kw = dict(_mode=mode, _depth=depth, _callee=rng.randrange(8),
                           _inner_mode='raise' if rng.random() < 0.2 else 'ret', _ret=retobj)
+                if rng.random() < 0.1:
+                    kw['_clear'] = rng.choice(['before', 'after'])
+                    res.count('clears_inside_a_traced_call')
                 if rng.random() < 0.25:
                     # "any arguments": keyword names that a wrapper might use itself must pass through untouched
                     for nm_ in rng.sample(['sync', 'func', 't', 'out', 'args', 'kwargs', 'self', 'name', 'fname', 'times'], rng.randint(1, 3)):
@@ -145,6 +156,8 @@ def run_case(rng, res, case_id):
                         if pending_end:
                             nm, st = pending_end.pop()
                             ref.setdefault(nm, []).append(float(last_tick - st))
+                    elif ev[0] == 'clear':
+                        ref.clear()     # samples of calls completed so far go; calls still in flight complete (and are sampled) later
                     elif ev[0] == 'enter':
                         open_[ev[2]] = last_tick
                     elif ev[0] == 'exit':
